@@ -1634,7 +1634,7 @@ RE_FOR_RANGE      = re.compile(
     r"^\s*for\s+([A-Za-z_]\w*)\s+in\s+range\((.*)\)\s*:\s*$"
 )
 RE_IF             = re.compile(r"^\s*if\s+(.+?)\s*:\s*$")
-RE_ELIF           = re.compile(r"^\s*elif\s+(.+?)\s*:\s*$")
+RE_ELIF           = re.compile(r"^\s*elif\b\s*(.+?)\s*:\s*$")
 RE_ELSE           = re.compile(r"^\s*else\s*:\s*$")
 RE_TRY            = re.compile(r"^\s*try\s*:\s*$")
 RE_EXCEPT         = re.compile(
